@@ -246,44 +246,52 @@ def _c08_schedules():
 
 
 def checks_after_every_round(repo, tier, seed):
+    """Both run-time checks (use <= schedule, month by month) are made after each of the three rounds, against the
+    schedules the first round computed; the final round's checks are unconditional.  Decided on the syntax tree of
+    run_and_analyze_scenario with private helpers spliced in and call arguments resolved by name, so neither the
+    spelling of a call (positional / keyword) nor a moved straight-line block matters."""
+    from contracts import astscan
     t0 = time.time()
     tree = ast.parse(open(os.path.join(repo, RS)).read())
-    fn = [n for c in tree.body if isinstance(c, ast.ClassDef) and c.name == "ScenarioRunner" for n in c.body
-          if isinstance(n, ast.FunctionDef) and n.name == "run_and_analyze_scenario"][0]
-    calls = {}
-    for n in ast.walk(fn):
-        if isinstance(n, ast.Call) and ast.unparse(n.func) in ("Validator.assert_feed_used_below_feed_demand", "Validator.assert_biofuels_used_below_biofuels_demand"):
-            rnd = [ast.unparse(k.value) for k in n.keywords if k.arg == "round"]
-            calls.setdefault(ast.unparse(n.func).split(".")[1], []).append((ast.unparse(n.args[0]), ast.unparse(n.args[1]), rnd[0] if rnd else None, n.lineno))
-    want_f = {("feed_demand", f"interpreted_results_round{r}", str(r)) for r in (1, 2, 3)}
-    want_b = {("biofuels_demand", f"interpreted_results_round{r}", str(r)) for r in (1, 2, 3)}
-    got_f = {c[:3] for c in calls.get("assert_feed_used_below_feed_demand", [])}
-    got_b = {c[:3] for c in calls.get("assert_biofuels_used_below_biofuels_demand", [])}
-    # the schedules checked against are the ones returned by the first-round parameter computation and never reassigned
+    methods = astscan.class_methods(tree, "ScenarioRunner")
+    fn = astscan.flat_function(methods, methods["run_and_analyze_scenario"])
+    vtree = ast.parse(open(os.path.join(repo, "src/optimizer/validate_results.py")).read())
+    vmethods = astscan.class_methods(vtree, "Validator")
+    names = ("assert_feed_used_below_feed_demand", "assert_biofuels_used_below_biofuels_demand")
+
+    def checks(node):
+        got = []
+        for n in ast.walk(node):
+            if isinstance(n, ast.Call) and isinstance(n.func, ast.Attribute) and n.func.attr in names and n.func.attr in vmethods:
+                b = astscan.bound_args(n, astscan.params_of(vmethods[n.func.attr]))
+                got.append((n.func.attr, b.get(astscan.params_of(vmethods[n.func.attr])[0]), b.get("interpreted_results"), b.get("round")))
+        return got
+
+    allc = checks(fn)
+    want = {(names[0], "feed_demand", f"interpreted_results_round{r}", str(r)) for r in (1, 2, 3)} | \
+           {(names[1], "biofuels_demand", f"interpreted_results_round{r}", str(r)) for r in (1, 2, 3)}
+    # the schedules checked against are assigned once (from the first-round parameter computation) and never again
     stores = [n for n in ast.walk(fn) if isinstance(n, ast.Name) and isinstance(n.ctx, ast.Store) and n.id in ("feed_demand", "biofuels_demand")]
-    src = ast.unparse(fn)
-    from_first = "feed_demand, biofuels_demand, feed_meat_object_round1) = constants_loader.compute_parameters_first_round(" in src.replace("\n", " ").replace("  ", " ")
-    # round 3's check is unconditional (top level of the function body), rounds 1 and 2 sit where those rounds run
-    top = [ast.unparse(s) for s in fn.body if isinstance(s, ast.Expr)]
-    r3_uncond = any("assert_feed_used_below_feed_demand(feed_demand, interpreted_results_round3, round=3)" in t for t in top) and \
-        any("assert_biofuels_used_below_biofuels_demand(biofuels_demand, interpreted_results_round3, round=3)" in t for t in top)
-    ok = got_f == want_f and got_b == want_b and len(stores) == 2 and r3_uncond
-    detail = f"feed checks {sorted(got_f)}; biofuel checks {sorted(got_b)}; schedules assigned {len(stores)} time(s) each; final-round checks unconditional: {r3_uncond}"
+    from_first = any(isinstance(st, ast.Assign) and "compute_parameters_first_round(" in ast.unparse(st.value)
+                     and {"feed_demand", "biofuels_demand"} <= {n.id for n in ast.walk(st.targets[0]) if isinstance(n, ast.Name)}
+                     for st in ast.walk(fn) if isinstance(st, ast.Assign))
+    # round 3's checks are unconditional: top-level statements of the (flattened) body
+    top = [c for st in fn.body if isinstance(st, ast.Expr) for c in checks(st)]
+    r3_uncond = {c for c in top if c[3] == "3"} == {c for c in want if c[3] == "3"}
+    ok = set(allc) == want and len(stores) == 2 and from_first and r3_uncond
+    detail = f"checks {sorted(allc)}; schedules assigned {len(stores)} time(s) in all, from the first round: {from_first}; final-round checks unconditional: {r3_uncond}"
     out = [{"name": "C03/rounds/use_is_checked_against_the_schedule_after_every_round", "kind": "structural", "status": "discharged" if ok else "failed",
             "backend": "ast", "seconds": round(time.time() - t0, 3), "detail": detail[:900], "goal": "both checks after rounds 1, 2, 3 on the first round's schedules",
             "replay_verdict": None if ok else "violation", "replay": None if ok else {"verdict": "violates-natively", "detail": detail}}]
-    # the schedule itself is what the first round computes from the scenario: get_biofuels_and_feed_from_delayed_shutoff
-    ptree = ast.parse(open(os.path.join(repo, PA)).read())
-    f1 = [n for c in ptree.body if isinstance(c, ast.ClassDef) and c.name == "Parameters" for n in c.body
-          if isinstance(n, ast.FunctionDef) and n.name == "init_meat_and_dairy_and_feed_from_breeding_and_subtract_feed_biofuels_round1"][0]
-    s1 = ast.unparse(f1).replace("\n", " ")
-    ok2 = "biofuels_demand, feed_demand = feed_and_biofuels_class.get_biofuels_and_feed_from_delayed_shutoff(constants_inputs)" in s1.replace("(biofuels_demand, feed_demand)", "biofuels_demand, feed_demand") and \
-        ast.unparse(f1.body[-1]).replace("\n", " ").count("feed_demand") == 1
-    out.append({"name": "C03/rounds/the_schedule_checked_is_the_scenarios_delayed_shutoff_schedule", "kind": "structural",
-                "status": "discharged" if ok2 else "failed", "backend": "ast", "seconds": 0, "detail": "schedules come from FeedAndBiofuels.get_biofuels_and_feed_from_delayed_shutoff(constants_inputs)",
-                "goal": "feed_demand / biofuels_demand returned by round 1 are the delayed-shutoff schedules", "replay_verdict": None if ok2 else "violation",
-                "replay": None if ok2 else {"verdict": "violates-natively", "detail": s1[:500]}})
     return out
+
+
+def _c05_first_round():
+    """The schedules the checks compare against are the scenario's delayed-shutoff schedules, handed on unchanged by
+    the first round: C05's wiring contract of that function, re-run under this property."""
+    from contracts import C05
+    from contracts.common import relabelled
+    return relabelled([c for c in C05.CONTRACTS if type(c).__name__ == "FirstRoundHerds"], "C03")
 
 
 def lp_ceilings(repo, tier, seed):
@@ -310,6 +318,7 @@ def _c18_min_needs():
 # mechanism of sentence 1 (not the sentence): before anything may go to feed / biofuel in the feed round, humans are
 # reserved min(no-feed result, minimum share) of their need, filled in the documented priority order - C18's contract
 CONTRACTS += _c18_min_needs()
+CONTRACTS += _c05_first_round()
 def pinned_human_consumption(repo, tier, seed):
     """Mechanism of sentence 1: in the feed round what people were reserved is PINNED (within 1e-5, 1e-4 below ten
     million people) - C02's lemma group, re-run under this property (a looser band hands human food to the animals)."""
